@@ -22,20 +22,31 @@ I(name, up, lo, addrs) == [name |-> name, up |-> up, lo |-> lo, addrs |-> addrs]
 \* ---------------------------------------------------------------- option lists (case n <-> mixed-radix digits)
 Pool == << A("10.1.0.1", "v4", "global"), A("10.2.0.1", "v4", "global"), A("fd00::1", "v6", "global"), A("2001:db8::2", "v6", "global"),
            A("fe80::1", "v6", "linklocal"), A("fec0::1", "v6", "sitelocal"), A("::10.1.0.9", "v6", "v4compat"),
-           A("127.0.0.1", "v4", "loopback"), A("::1", "v6", "loopback") >>
+           A("127.0.0.1", "v4", "loopback"), A("::1", "v6", "loopback"),
+           \* the edges of the excluded IPv6 prefixes: site-local is fec0::/10 (second byte 0xc0..0xff), link-local fe80::/10 (0x80..0xbf),
+           \* and the last address block below them, which is an ordinary address
+           A("fed0::5", "v6", "sitelocal"), A("feff::9", "v6", "sitelocal"), A("febf::3", "v6", "linklocal"), A("fe7f::7", "v6", "global") >>
 Pa(k) == Pool[k]
+\* the class tags of the fe00::/8 addresses above are not hand-waved: they follow from the two leading bytes (RFC 4291 2.4, RFC 3879)
+Lead == "fe80::1" :> <<254, 128>> @@ "febf::3" :> <<254, 191>> @@ "fec0::1" :> <<254, 192>> @@ "fed0::5" :> <<254, 208>> @@ "feff::9" :> <<254, 255>>
+        @@ "fe7f::7" :> <<254, 127>> @@ "fd00::1" :> <<253, 0>> @@ "2001:db8::2" :> <<32, 1>>
+ClassByLead(b) == IF b[1] = 254 /\ b[2] \in 128..191 THEN "linklocal" ELSE IF b[1] = 254 /\ b[2] \in 192..255 THEN "sitelocal" ELSE "global"
+ASSUME \A k \in 1..Len(Pool) : Pool[k].ip \in DOMAIN Lead => Pool[k].cls = ClassByLead(Lead[Pool[k].ip])
+ASSUME \A k \in 1..Len(Pool) : (Pool[k].fam = "v6" /\ Pool[k].cls \in {"global", "linklocal", "sitelocal"}) => Pool[k].ip \in DOMAIN Lead
 \* first interface: an ordinary one with two addresses of every mix of classes
 Slot1 == << I("if1", TRUE, FALSE, <<Pa(1), Pa(3)>>), I("if1", TRUE, FALSE, <<Pa(1), Pa(5)>>), I("if1", TRUE, FALSE, <<Pa(1), Pa(6)>>),
             I("if1", TRUE, FALSE, <<Pa(1), Pa(7)>>), I("if1", TRUE, FALSE, <<Pa(3), Pa(5)>>), I("if1", TRUE, FALSE, <<Pa(1), Pa(2)>>),
             I("if1", TRUE, FALSE, <<Pa(3), Pa(4)>>), I("if1", TRUE, FALSE, <<Pa(1)>>), I("if1", TRUE, FALSE, <<Pa(3)>>),
-            I("if1", TRUE, FALSE, <<Pa(6), Pa(7)>>), I("if1", TRUE, FALSE, <<Pa(1), Pa(9)>>), I("if1", TRUE, FALSE, <<Pa(8), Pa(3)>>) >>
+            I("if1", TRUE, FALSE, <<Pa(6), Pa(7)>>), I("if1", TRUE, FALSE, <<Pa(1), Pa(9)>>), I("if1", TRUE, FALSE, <<Pa(8), Pa(3)>>),
+            I("if1", TRUE, FALSE, <<Pa(1), Pa(10)>>), I("if1", TRUE, FALSE, <<Pa(3), Pa(11)>>), I("if1", TRUE, FALSE, <<Pa(1), Pa(12)>>),
+            I("if1", TRUE, FALSE, <<Pa(13), Pa(11)>>) >>
 \* second interface: absent, loopback, down, or another ordinary one
 Slot2 == << <<>>, <<I("if2", TRUE, TRUE, <<Pa(8), Pa(9)>>)>>, <<I("if2", TRUE, TRUE, <<Pa(8)>>)>>, <<I("if2", TRUE, TRUE, <<Pa(9), Pa(2)>>)>>,
             <<I("if2", FALSE, FALSE, <<Pa(2), Pa(4)>>)>>, <<I("if2", TRUE, FALSE, <<Pa(2), Pa(4)>>)>>, <<I("if2", TRUE, FALSE, <<Pa(5), Pa(6)>>)>>,
             <<I("if2", FALSE, TRUE, <<Pa(8)>>)>> >>
 Slot3 == << <<>>, <<I("if3", TRUE, FALSE, <<Pa(4), Pa(7)>>)>>, <<I("if3", TRUE, FALSE, <<Pa(2)>>)>>, <<I("if3", FALSE, FALSE, <<Pa(4)>>)>> >>
 \* the table of the design prototype: one address of every awkward class
-RichTable == << I("if1", TRUE, FALSE, <<Pa(1), Pa(3), Pa(5), Pa(6), Pa(7)>>), I("if2", TRUE, TRUE, <<Pa(8), Pa(9)>>), I("if3", FALSE, FALSE, <<Pa(2)>>) >>
+RichTable == << I("if1", TRUE, FALSE, <<Pa(1), Pa(3), Pa(5), Pa(6), Pa(7), Pa(10), Pa(11), Pa(12), Pa(13)>>), I("if2", TRUE, TRUE, <<Pa(8), Pa(9)>>), I("if3", FALSE, FALSE, <<Pa(2)>>) >>
 
 NetsOpts == << <<>>, <<"udp4">>, <<"udp6">>, <<"udp4", "udp6">>, <<"udp4", "tcp4">>, <<"tcp4", "tcp6">>, <<"udp4", "udp6", "tcp4", "tcp6">>, <<"udp4", "tcp6">> >>
 TypesOpts == << <<"host">>, <<"host", "srflx">>, <<>>, <<"srflx">> >>
